@@ -106,10 +106,10 @@ def mtime_seen(case):
     return int(case['mtime'] + 1e-9 * case['frac'])
 
 
-def st(file, mtime=1700000000, frac=0, method='GET', rng=None, ims=None, delta=None, tz=None, via='direct', prev=None, kw=None, setup=None, interleave=False):
+def st(file, mtime=1700000000, frac=0, method='GET', rng=None, ims=None, delta=None, tz=None, via='direct', prev=None, kw=None, setup=None, interleave=False, replace=None):
     """ims: literal header or None; delta: if not None the header is a well-formed date mtime+delta (format in ims)"""
     return dict(kind='static', file=file, mtime=mtime, frac=frac, method=method, range=rng, ims=ims, delta=delta, tz=tz,
-                via=via, prev=prev, kw=kw or {}, setup=setup, interleave=interleave)
+                via=via, prev=prev, kw=kw or {}, setup=setup, interleave=interleave, replace=replace)
 
 
 def pr(fname, mimetype='auto', charset='UTF-8', download=False):
@@ -181,6 +181,12 @@ def corpus():
         st(d10, via='app2', prev=dict(ims='Thu, 01 Jan 2099 00:00:00 GMT')),
         st(d10, via='app2', rng='bytes=0-1', prev=dict(range='bytes=5-6')),
         st(d10, via='app', prev=dict(range='bytes=2-4')), st(d10, via='direct', prev=dict(range='bytes=2-4')),
+        # the file is replaced (new file renamed over it) after static_file() answered, before the body is consumed: headers
+        # and bytes must still agree - the response streams the file it opened (seeded change C17/18)
+        st(d10, rng='bytes=2-7', replace='longer'), st(d10, rng='bytes=2-7', replace='shorter'), st(d10, rng='bytes=2-7', replace='empty'),
+        st(d10, rng='bytes=-4', replace='same'), st(d10, replace='shorter'), st(d10, replace='longer'),
+        st(d10, via='app', rng='bytes=2-7', replace='same'), st(d10, via='app', replace='empty', interleave=True),
+        st(d10, method='HEAD', rng='bytes=2-7', replace='empty'),
         # the body of a response is still streamed while the same thread handles its next request (seeded change C17/15)
         st(d10, via='app', interleave=True), st(d10, via='app', rng='bytes=2-7', interleave=True),
         st(d10, via='app2', rng='bytes=2-7', interleave=True), st(d10, via='app', method='HEAD', interleave=True),
@@ -352,7 +358,8 @@ def gen(rng, n):
             if rng.random() < 0.3:
                 kw = rng.choice([dict(download=True), dict(mimetype=None), dict(mimetype='text/plain', charset='latin1'),
                                  dict(download='x.bin', mimetype='application/x'), dict(charset='')])
-            yield st(file, mtime, frac, method, rg, ims, delta, tz, via, prev, kw, setup, via != 'direct' and rng.random() < 0.4)
+            yield st(file, mtime, frac, method, rg, ims, delta, tz, via, prev, kw, setup, via != 'direct' and rng.random() < 0.4,
+                     rng.choice(['shorter', 'longer', 'same', 'empty']) if rng.random() < 0.2 else None)
 
 
 def thorough():
@@ -441,6 +448,20 @@ def wsgi_call(app, env, between=None):
         if close:
             close()
     return int(out['status'][:3]), out['headers'], body
+
+
+def replace_file(path, case):
+    """atomically replace the file (write a new one, rename over it) after static_file() answered and before the body
+    is consumed: the response must still deliver the bytes its headers describe (the inode that was opened)"""
+    how = case.get('replace')
+    if not how:
+        return
+    n = len(fbytes(case))
+    m = {'shorter': n // 2, 'longer': n + 7, 'same': n, 'empty': 0}[how]
+    tmp = path + '.new'
+    with open(tmp, 'wb') as f:
+        f.write(bytes((i * 5 + 1) % 251 for i in range(m)))
+    os.replace(tmp, path)
 
 
 def kw_of(case):
@@ -538,12 +559,17 @@ def run_impl(case):
             with _tz(case), COV:
                 if via == 'direct':
                     resp = ombott.static_file(os.path.basename(path), tmpdir(), **kw_of(case))
+                    replace_file(path, case)
                 else:
                     _CUR.update(name=os.path.basename(path), root=tmpdir(), kw=kw_of(case))
                     the_app = app_for(case)
                     between = None
+                    if case.get('replace') and not case.get('interleave'):
+                        def between():
+                            replace_file(path, case)
                     if case.get('interleave'):
                         def between():
+                            replace_file(path, case)
                             # the same thread handles another request (same route, plain GET and a Range) completely
                             n_o, n_p = len(opened), len(pd_args)
                             wsgi_call(the_app, request_environ('GET', None, None))
@@ -950,6 +976,8 @@ def shrink(case):
             yield dict(case, setup={})
         if case.get('interleave'):
             yield dict(case, interleave=False)
+        if case.get('replace') not in (None, 'same'):
+            yield dict(case, replace='same')
 
 
 def _over_digit_limit(case, what, m):
@@ -984,7 +1012,8 @@ API_SURFACE = [
     ('root / filename as bytes', 'excluded: TypeError before anything is opened (API misuse: abspath(bytes) + str)'),
     ('root as os.PathLike', 'covered by C16 (root_kind=path)'),
     ('HTTPResponse.headerlist for 304', 'covered by the oracle (no entity header on the wire), model: C14'),
-    ('file changes between stat and read, symlinks', 'excluded: outside the property (see ASSUMPTIONS)'),
+    ('file replaced (rename) between the answer and the streaming of the body', 'covered by replace=shorter|longer|same|empty: the opened inode is streamed'),
+    ('file modified IN PLACE between stat and read, symlinks', 'excluded: outside the property (see ASSUMPTIONS)'),
 ]
 
 MANIFEST = dict(
